@@ -118,7 +118,7 @@ theorem readU32_u32be {c : Cursor} {pre rest : Bytes} {n : Nat} (hn : n < 429496
     c.readU32 = .ok (n, ⟨c.s, c.pos + 4⟩) := by
   unfold Cursor.readU32
   have hlen : c.pos + 4 ≤ c.s.length := by
-    rw [hs, hp]; simp [u32be_length]; omega
+    rw [hs, hp]; simp [u32be_length] <;> omega
   have h1 : c.pos ≤ c.s.length := by omega
   have hdrop : c.s.drop c.pos = u32be n ++ rest := by
     rw [hs, hp]; simp
@@ -133,7 +133,7 @@ theorem readString_sshString {c : Cursor} {pre rest s : Bytes} (hn : s.length < 
     rw [hs]; simp [sshString]
   rw [readU32_u32be hn hs' hp]
   have hlen : c.pos + 4 + s.length ≤ c.s.length := by
-    rw [hs', hp]; simp [u32be_length]; omega
+    rw [hs', hp]; simp [u32be_length] <;> omega
   have h1 : ¬ (c.pos + 4 + s.length < c.pos + 4) := by omega
   have h2 : ¬ (c.s.length < c.pos + 4 + s.length) := by omega
   have hdrop : c.s.drop (c.pos + 4) = s ++ rest := by
